@@ -51,13 +51,28 @@ def hyperplaneOp (j : Json) : R Json := do
     let rows := hyperplaneData Td normal
     return ofMat (fun a b => rows a b)
 
-def refSpectrumOp (j : Json) : R Json := do
-  let ev ← qArr (← field j "evals")
+@[simp] theorem SM_eq {m n : ℕ} (M : Matrix (Fin m) (Fin n) ℚ) : SM M = M := by simp [SM]
+
+/-- `fromReflectionAccepts` with every intermediate value materialised once -/
+def acceptStaged {n : ℕ} (eps : ℚ) (M : Matrix (Fin (n + 1)) (Fin (n + 1)) ℚ) : Bool :=
+  let M' := SM (traceRep M)
+  let d := S (reflNormal M)
+  let R := SM (reflMat d.toFn)
+  let bound := eps * max 1 (matMax M')
+  decide (∀ i j, |M' i j - R i j| ≤ bound) && decide (0 < mink d.toFn d.toFn)
+
+theorem acceptStaged_eq {n : ℕ} (eps : ℚ) (M : Matrix (Fin (n + 1)) (Fin (n + 1)) ℚ) :
+    acceptStaged eps M = fromReflectionAccepts eps M := by
+  simp [acceptStaged, fromReflectionAccepts]
+
+/-- the acceptance decision of `from_reflection` on the exact matrix, and the normal it reads off -/
+def refAcceptOp (j : Json) : R Json := do
+  let n ← natf j "n"
+  let M ← matf (n + 1) (n + 1) j "M"
   let eps ← qf j "eps"
-  let vnorm ← toQ (fieldD j "vnorm" (Json.str "1"))
-  return Json.mkObj [("accept", Json.bool (fromReflectionAcceptsRep eps ev.toList vnorm)),
-    ("spectrum_ok", Json.bool (isReflSpectrum eps ev.toList)),
-    ("argmin", match argminIdx ev.toList with | some i => Json.num (JsonNumber.fromNat i) | none => Json.null)]
+  let Md := SM M
+  let d := S (reflNormal Md)
+  return Json.mkObj [("accept", Json.bool (acceptStaged eps Md)), ("normal", ofQArr d.a)]
 
 def fixOrderOp (j : Json) : R Json := do
   let es ← qArr2 (← field j "es")
@@ -83,6 +98,6 @@ def fixedResidualOp (j : Json) : R Json := withVec j "v" fun n v => do
 
 def ops : List (String × Handler) :=
   [("c15.reflect", reflectOp), ("c15.reflect_literal", reflectLiteralOp),
-   ("c15.hyperplane", hyperplaneOp), ("c15.refl_spectrum", refSpectrumOp),
+   ("c15.hyperplane", hyperplaneOp), ("c15.refl_accept", refAcceptOp),
    ("c15.fix_order", fixOrderOp), ("c15.fixed_residual", fixedResidualOp)]
 end GT.Driver.C15
